@@ -6,7 +6,7 @@ from check import *
 import native as nat
 import bp, sf_common
 
-EXPLANATION = ('C19: CBMC on the IR-derived C of the real Workload_Distribution for all arguments in the bound (size, end points, monotonicity, differences within 1); EA with symbolic integers on Range (exact half-open integer range in the stated direction); '
+EXPLANATION = ('C19: CBMC on the IR-derived C of the real Workload_Distribution for all arguments in the bound (size, end points, monotonicity, differences within 1) and, on IEEE doubles, Variance of three finite values is a non-negative number (never negative, never NaN); EA with symbolic integers on Range (exact half-open integer range in the stated direction); '
                'EA on Linear_Space / Log_Space (count, end points, equal spacing, monotonicity), Locate_Closest_Location (index in range, nearest element, unsorted input exits), the list templates on symbolic doubles for every length combination in the bound, '
                'and Arithmetic_Mean / Variance / Standard_Deviation / Median (sorting-network oracle) / Weighted_Average (equal weights reduce to mean and s/sqrt(N); arbitrary positive weights, N <= 3: the average is sum(w x)/sum(w) and the squared standard error is N/((N-1) W^2) sum w_i^2 (x_i - avg)^2, from which the translation and scaling laws follow).')
 BOUNDS = {'quick': {'workers': 8, 'tasks': 64, 'range': 6, 'steps': [2, 3, 4, 5], 'list_len': 3, 'stat_n': [1, 2, 3, 4, 5]}, 'thorough': {'workers': 12, 'tasks': 1024, 'range': 10, 'steps': [2, 3, 4, 5, 6, 8], 'list_len': 4, 'stat_n': [1, 2, 3, 4, 5, 6]}}
@@ -206,11 +206,13 @@ def job_range(direction, maxlen):
     return res
 
 def job_bp(h): return bp.run_harness('C19', 'C19.c', h, G['m'], ['verif_workload', 'verif_range', 'verif_range1'])
+def job_bp_stats(h): return bp.run_harness('C19', 'C19s.c', h, G['sf'], ['verif_stats'], tag='C19s')
 
 def jobs(ctx):
     module(ctx); b = BOUNDS[ctx.tier]; J = []
     G['sf'] = ctx.lower(sf_common.SRCS, 'SF.cpp', sf_common.KEEP)
     for h in bp.harnesses('C19.c', ctx.tier): J.append((job_bp, (h,)))
+    for h in bp.harnesses('C19s.c', ctx.tier): J.append((job_bp_stats, (h,)))
     for d_ in ('ascending', 'descending'): J.append((job_range, (d_, 6 if ctx.quick() else 12)))
     for lg in (0, 1):
         for s_ in b['steps']: J.append((job_space, (lg, s_)))
@@ -240,6 +242,11 @@ def fl(q): return q2f(q) if isinstance(q, list) else float(q)
 def replay(ctx, o):
     so = native(ctx); m = o['model'] or {}; key = o['key']
     if o['backend'] == 'BP':
+        if 'in_d0' in m:
+            d = [m['in_d0'], m['in_d1'], m['in_d2']]; so2 = ctx.native(sf_common.NATIVE_SRCS, 'SF.cpp')
+            r = nat.call(so2, 'verif_stats', [('i32', 3), ('u32', 3), ('dbl[]', d), ('dbl[]', [1.0] * 3), ('dbl[]', [0.0, 0.0])])
+            s2 = nat.call(so2, 'verif_stats', [('i32', 4), ('u32', 3), ('dbl[]', d), ('dbl[]', [1.0] * 3), ('dbl[]', [0.0, 0.0])])
+            return (r['status'] != 'ok' or not (r['ret'] >= 0.0)), 'native Variance(%r) = %s, Standard_Deviation = %s' % (d, r.get('ret', r['status']), s2.get('ret', s2['status']))
         if 'in_workers' in m and 'workload' in o['name']:
             w, t = m['in_workers'], m['in_tasks']; r = nat.call(so, 'verif_workload', [('u32', w), ('u32', t), ('i32[]', [0] * 40), ('u64', 40)], restype='long')
             idx = r['arrays'][0][:r['ret']]; d = [idx[i + 1] - idx[i] for i in range(len(idx) - 1)]
